@@ -142,3 +142,64 @@ def run(facts, report, config):
                 else:
                     report.add(Instance(key, "c14.remwidth", "ok", "auto: the divisor is signed, |d| <= 2^(bits-1) bounds the "
                                         "remainder", t["s"], {"body": b["id"]}), config)
+
+
+ADJUST = {"wrapping_sub", "wrapping_add"}
+NONZERO = {"is_nonzero", "is_zero"}
+
+
+def _choice_calls(view, prov, op, depth=0, seen=None, facts=None):
+    """last segments of the calls a choice operand is built from (through ConstChoice combinators and, one level, helper
+    tuples are NOT followed: a sign or a flag handed back by a helper is a leaf)"""
+    seen = seen if seen is not None else set()
+    out = set()
+    for r in mir.uniq_roots(prov.roots_of_operand(op)):
+        if r.kind == "call" and r.site is not None:
+            t = view.blocks[r.site[0]]["term"]
+            seg = mir.last_seg(mir.callee_name(t)) or ""
+            if seg in COMB | {"ne", "eq"} and depth < 6 and r.site not in seen:
+                seen.add(r.site)
+                for a in t["args"]:
+                    out |= _choice_calls(view, prov, a, depth + 1, seen, facts)
+            else:
+                out.add(seg)
+        elif r.kind != "const":
+            out.add("?")
+    return out
+
+
+def run_reminv(facts, report, config):
+    """(e) `c14.reminv` — the flooring corrections (quotient + 1, remainder := |d| - r) apply only when the remainder is
+    non-zero: for an exact division `|d| - 0 = |d|` is outside [0, |d|) and the quotient is already exact.  Every `select`
+    in a flooring routine whose alternative comes out of a `wrapping_add` / `wrapping_sub` must therefore be gated by a
+    choice built (also) from the remainder's `is_nonzero` test; a gate built from signs alone is wrong for every exact
+    division with the triggering sign."""
+    for b in facts.fn_bodies():
+        if b["kind"] == "Closure" or not SCOPE.match(b["id"]) or b.get("derived") or not FLOOR.search(b.get("name") or ""):
+            continue
+        view = mir.BodyView(b)
+        prov = mir.Provenance(view)
+        n = 0
+        for bi, t in view.calls():
+            if view.blocks[bi]["cleanup"] or (mir.last_seg(mir.callee_name(t)) or "") != "select" or len(t["args"]) != 3:
+                continue
+            alt = mir.uniq_roots(prov.roots_of_operand(t["args"][1]))
+            if not any(r.kind == "call" and (mir.last_seg(r.what) or "") in ADJUST for r in alt):
+                continue
+            report.count("floor_corrections")
+            key = "c14.reminv|%s|%d" % (norm_id(b["id"]), n)
+            n += 1
+            calls = _choice_calls(view, prov, t["args"][2], facts=facts)
+            if calls & NONZERO:
+                report.add(Instance(key, "c14.reminv", "ok", "auto: the correction is gated by the remainder's non-zero test",
+                                    t["s"], {"body": b["id"]}), config)
+            elif "?" in calls:
+                report.add(Instance(key, "c14.reminv", "info", "gate not built from calls alone: not judged", t["s"],
+                                    {"body": b["id"]}), config)
+            else:
+                report.add(Instance(key, "c14.reminv", "violation",
+                                    "`%s` applies a flooring correction (the alternative of this select comes out of a wrapping "
+                                    "add / sub) under a choice built from %s only — not from the remainder's non-zero test: for an "
+                                    "exact division with the triggering sign the quotient is bumped / the remainder becomes |d|, "
+                                    "outside [0, |d|)" % (b.get("name"), sorted(calls) or ["constants"]), t["s"],
+                                    {"body": b["id"]}), config)
